@@ -238,6 +238,7 @@ def check_module(ctx, spec, table, timeout_ms, report_q):
                     r = sol.check()
                     if r == z3.unknown:
                         raise Inconclusive('solver timeout')
+                    common.cross_check(sol, r)
                     if r == z3.sat:
                         vs.append({'key': key, 'what': '[%s] %s not preserved' % (names[k], what), 'spec': spec, 'model': sol.model()})
                 per[names[k]] += vs
@@ -307,6 +308,7 @@ def check_generated(ctx, report, name, spec, table, timeout_ms):
                         r = sol.check()
                         if r == z3.unknown:
                             raise Inconclusive('solver timeout')
+                        common.cross_check(sol, r)
                         if r == z3.sat:
                             vios.append({'key': key, 'what': '[%s] %s not preserved' % (name, what), 'spec': spec, 'model': sol.model()})
         ob.detail = '%d emit paths, %d functions' % (n, len(spec.funcs))
